@@ -17,6 +17,15 @@ CHECKS = {
         "design_ref": "DESIGN.md section 3, C02",
         "note": "Trusted: probe reads through the detector's public properties. NaN schedules and zeros at later positions are outside both the accept and the reject set.",
     },
+    "C03": {
+        "technique": "property-based testing: generated writer-probe pipelines with per-step plans and dtypes; result slices, labels, dtypes, scene/data nodes and debug records compared with in-run snapshots; flat-vs-hierarchical and debug-on-vs-off differentials",
+        "text": "Each generated exposure (1..5 steps, 2-D/3-D photon, charge arrays/clusters, pixel, signal, image uint8..uint64, scene, data nodes) is run "
+                "three times (flat, hierarchical, debug); every result slice must equal the bucket snapshot taken by a probe at the end of that step, "
+                "labels/dtypes are checked, layouts and debug on/off must agree, and every debug record is checked for soundness and completeness "
+                "against before/after snapshots of each writer. Exploration.",
+        "design_ref": "DESIGN.md section 3, C03",
+        "note": "Trusted: snapshot probes (public API reads). Known finding K4 (uint64 > 2^53) is excluded from the main generator and probed separately.",
+    },
     "C13": {
         "technique": "model-based property testing of generated operation sequences (Hypothesis) against a reference container model",
         "text": "Generated set/update/+=/empty/read/==/detector-assignment sequences on photon, pixel, signal, image and phase "
